@@ -145,7 +145,8 @@ class StatementInserter(ast.NodeTransformer, EmitterMixin):
                         orelse=[],
                         finalbody=[
                             _get_parsed_append_stmt(
-                                cast(ast.stmt, loop_node_copy),
+                                # the id embedded in the emit call must be that of the registered pristine copy
+                                cast(ast.stmt, self.orig_to_copy_mapping[id(node)]),
                                 evt=after_loop_evt,
                                 guard=fast.Str(loop_guard),
                             ),
@@ -223,7 +224,7 @@ class StatementInserter(ast.NodeTransformer, EmitterMixin):
                         orelse=[],
                         finalbody=[
                             _get_parsed_append_stmt(
-                                cast(ast.stmt, fundef_copy),
+                                cast(ast.stmt, self.orig_to_copy_mapping[id(node)]),
                                 evt=TraceEvent.after_function_execution,
                                 guard=(
                                     fast.Str(function_guard)
